@@ -55,7 +55,7 @@ def run(ctx):
                         "u64 values beyond the stream length are represented by 2^29 in the spec (TLC integers are 32-bit); any such range reaches past the end"]
     # 1. MC: mirror layer = property layer on all small inputs; reference well-formedness
     cfg = "MC_RangeHash.cfg" if ctx.quick else "MC_RangeHash_thorough.cfg"
-    r = tlc_expect_ok(tlc("MC_RangeHash", cfg, workers=8, timeout=1500, coverage=False), "MC RangeHash")
+    r = tlc_expect_ok(tlc("MC_RangeHash", cfg, workers=8, timeout=2400, coverage=False, heap="4g" if ctx.quick else "20g"), "MC RangeHash")      # 15.4 M initial states in the thorough configuration
     ctx.add_tlc(r)
     # 2. MC: reader/worker pipeline, every interleaving, termination
     pcfg = "MC_HashPipeline.cfg" if ctx.quick else "MC_HashPipeline_thorough.cfg"
